@@ -1,4 +1,7 @@
-(* C02 / C13 — model of Block::generate_consensus_values (block.rs) as a pure function.
+(* C02 / C13 — model of Block::generate_consensus_values (block.rs) as a pure function
+   (as of /repo e1b5241: fees of every user-originated type counted, rebroadcast inputs keep
+   their ledger amount, NFT payload output = payout - fee, the 5 % cap reads the parent's
+   treasury and commits to the adjusted transactions).
 
    Model only; proofs are in proofs/CVProofs.v.
 
@@ -7,8 +10,7 @@
    transactions of the block that leaves the retention window (id - genesis_period - 1)
    as loaded from disk, the utxo set as the predicate "Slip::validate is true", the
    configuration value genesis_period, the burn fee (given: burnfee.rs is C08's model),
-   the value of `self.treasury` the code reads in the 5 % cap test (0 inside
-   Block::create, the header value inside Block::validate) and the lottery oracle
+   and the lottery oracle
    (the keys the real find_winning_router / golden ticket name; amounts are modelled).
 
    Arithmetic: every u64 operation of the code that can overflow goes through
@@ -160,7 +162,8 @@ Record oracle := mkOracle {
 
 Record cv_in := mkIn {
   i_id : N; i_ts : N;
-  i_self_treasury : N;          (* self.treasury as read by the cap test *)
+  i_self_treasury : N;          (* self.treasury — no longer read since fix e1b5241 (the cap test
+                                   uses the parent's treasury); kept as an input that has no effect *)
   i_self_burnfee : N; i_self_difficulty : N;   (* used only without a previous block *)
   i_txs : list tx;
   i_prev : option hdr;          (* blockchain.blocks.get(previous_block_hash) *)
@@ -186,8 +189,7 @@ Record cv := mkCv {
   c_rb_slips : N;               (* total_rebroadcast_slips *)
   c_rb_nolan : N;               (* total_rebroadcast_nolan *)
   c_rebroadcasts : list tx;     (* cv.rebroadcasts (after the cap adjustment) *)
-  c_rb_hash : list tx;          (* the transactions hashed into cv.rebroadcast_hash, in order
-                                   (before the cap adjustment: the hash is not recomputed) *)
+  c_rb_hash : list tx;          (* the transactions hashed into cv.rebroadcast_hash, in order *)
   c_avg_nolan : N;
   c_dust_fees : N;              (* total_fees_paid_by_nonrebroadcast_atr_transactions *)
   c_fee_tx : option tx;         (* cv.fee_transaction *)
@@ -208,7 +210,8 @@ Definition sweep_step (m : amode) (a : sweep_acc) (it : N * tx) : res sweep_acc 
   do ft <- (if ty =? TFee then inc8 m (w_ft a) else Ok (w_ft a));
   let fti := if ty =? TFee then Some index else w_fti a in
   let nonfee := if ty =? TFee then w_nonfee a else w_nonfee a + 1 in
-  let counts := ((ty =? TGolden) || (ty =? TNormal)) && negb (ty =? TATR) in
+  (* every user-originated type pays its fee into the block (fix 1fdb9e1) *)
+  let counts := negb (ty =? TFee) && negb (ty =? TATR) && negb (ty =? TIssuance) && negb (ty =? TSPV) in
   do bytes <- (if counts then add m P_BYTES_NEW (w_bytes a) (tx_size t) else Ok (w_bytes a));
   do fees <- (if counts then add m P_FEES_NEW (w_fees a) (total_fees t) else Ok (w_fees a));
   do gt <- (if ty =? TGolden then inc8 m (w_gt a) else Ok (w_gt a));
@@ -286,14 +289,14 @@ Definition atr_group (m : amode) (orig : tx) (mult fee : N) (a : atr_acc) (g : g
     do pay <- add m P_ATR_ACC (a_payout a) surplus;
     do fees <- add m P_ATR_ACC (a_fees a) fee;
     let rb :=
+      (* the input is the output as the ledger holds it (its utxo key); payout and fee show up in
+         the output only (fix e1b5241) *)
       match g with
       | GSingle s =>
-          mk_rebroadcast orig [set_amt s payout] [set_amt (set_ty s SATR) outamt]
+          mk_rebroadcast orig [s] [set_amt (set_ty s SATR) outamt]
       | GTriple s1 s2 s3 =>
-          (* the output built with `atr_payout_for_slip - atr_fee` is not the one passed on:
-             create_rebroadcast_bound_transaction receives input2 (amount = payout) *)
-          mk_rebroadcast orig [s1; set_amt s2 payout; s3]
-                         [s1; set_ty (set_amt s2 payout) SATR; s3]
+          mk_rebroadcast orig [s1; s2; s3]
+                         [s1; set_ty (set_amt s2 outamt) SATR; s3]
       end in
     Ok (mkAtr nolan slips pay fees (a_dust a) (rb :: a_rbs a))
   else
@@ -412,14 +415,17 @@ Section Model.
         let rbs := rev (a_rbs a) in
         do s1 <- add m P_FEES_CUM fees_new (a_fees a);
         do cum <- sub m P_FEES_CUM s1 (a_dust a);
-        let limit := cap05 (i_self_treasury i) in
+        (* the reference is the treasury of the previous block (fix e1b5241) *)
+        let limit := cap05 prev_treasury in
         if limit <? a_payout a then
           (if a_nolan a =? 0 then Panic P_CAP_DIV0 else
            let adjm := limit / a_nolan a in
            do adj <- add m P_MULT_ADD 1 adjm;
            do capped_rbs <- cap_loop m adj 0 rbs;
-           Ok (mkAtrOut (a_nolan a) (a_slips a) (fst capped_rbs) 0 (a_dust a)
-                        (snd capped_rbs) rbs (Some cum) true))
+           (* the rebroadcast fee is waived, what was collected from too-small outputs stays collected;
+              total_fees_cumulative = total_fees_new; the hash is taken over the adjusted transactions *)
+           Ok (mkAtrOut (a_nolan a) (a_slips a) (fst capped_rbs) (a_dust a) (a_dust a)
+                        (snd capped_rbs) (snd capped_rbs) (Some fees_new) true))
         else
           Ok (mkAtrOut (a_nolan a) (a_slips a) (a_payout a) (a_fees a) (a_dust a) rbs rbs (Some cum) false)
     end.
